@@ -173,8 +173,8 @@ def k2_process_model(M0, op):
 
 def run_AB(rs, ctx, j, processes):
     l, p = gen.ALL_COMBOS[j % 48]
-    cfg = gen.gen_cfg(rs, l, p, labels=gen.pick(rs, ["int", "str", "float"]), n_arms=int(rs.integers(2, 5)),
-                      with_probs=bool(rs.integers(4) == 0))
+    cfg = gen.gen_cfg(rs, l, p, labels=gen.pick(rs, ["int", "str", "float"]), n_arms=int(gen.pick(rs, [2, 3, 4, 2, 3, 4, 19])),
+                      with_probs=bool(rs.integers(4) == 0))  # 19 arms: more fit tasks than cpus (n_jobs=-1 -> 16 here)
     nf = int(gen.pick(rs, [1, 2, 3]))
     if processes:
         variants = [(int(gen.pick(rs, [2, 3])), gen.pick(rs, [None, "loky", "multiprocessing"]))]
@@ -182,7 +182,7 @@ def run_AB(rs, ctx, j, processes):
     else:
         pool = [(2, "threading"), (3, "threading"), (4, "threading"), (-1, "threading"), (-2, "threading"), (64, "threading"), (5, "threading")]
         variants = [pool[int(i)] for i in rs.permutation(len(pool))[:2]]
-        m_rows = [1, 2, 3, int(gen.pick(rs, [4, 5, 9]))]
+        m_rows = [1, 2, 3, int(gen.pick(rs, [4, 5, 9, 17, 37, 70]))]
     ops = scenario_ops(rs, cfg, nf, m_rows)
     ref = gen.run_ops(gen.build(cfg), ops)
     for n_jobs, backend in variants:
